@@ -174,7 +174,7 @@ def structural_module_name(repo):
     try:
         t = ast.parse(open(os.path.join(repo, rel), encoding='utf-8').read())
     except (OSError, SyntaxError) as e:
-        return [{'id': 'module-name-roots', 'kind': 'call-pre', 'ok': None, 'label': 'cannot parse %s: %s' % (rel, e)}]
+        return [{'id': 'module-name-roots', 'definite': True, 'kind': 'call-pre', 'ok': None, 'label': 'cannot parse %s: %s' % (rel, e)}]
     fn = find_function(t, 'Script._get_module')
     ok = None
     detail = ''
@@ -187,7 +187,7 @@ def structural_module_name(repo):
                 ok = True
             elif a0.startswith('self._inference_state.get_sys_path('):
                 ok = False
-    return [{'id': 'module-name-roots', 'kind': 'call-pre', 'ok': ok, 'detail': detail,
+    return [{'id': 'module-name-roots', 'definite': True, 'kind': 'call-pre', 'ok': ok, 'detail': detail,
              'label': 'Script._get_module derives the dotted name of the buffer from get_sys_path(add_parent_paths=False): '
                       'plain folders between the project root and the file stay part of the dotted name'}]
 
